@@ -305,3 +305,34 @@ PROPS["C11"]["assumptions"] = PROPS["C11"]["assumptions"] + [
     "under the canonical name (a fresh pair is created next to them): they are not 'well-formed names' in the theorems",
     "legacy names (PK-BL-B.MASSDB) are exercised by oracles only (rename, no overwrite), not modelled in Lean"]
 
+
+PROPS["C15"] = {
+    "props": ["MassVerif.Props.C15"], "drivers_mod": ["MassVerif.Driver.Config"],
+    "harnesses": [{"name": "config", "pkg": "harness/config", "driver": "MassVerif/Driver/Config.lean",
+                   "quick": {"n": 250, "len": 36}, "thorough": {"n": 4000, "len": 60}, "search": {"n": 2500, "len": 60}}],
+    "level_text": "Unbounded proof (Lean 4) over a model of the configuration arithmetic (fill pass over the indexed spaces, largest "
+                  "bit length first; disk check; creation pass; the uint64->int conversions; the API's MiB arithmetic and pre-checks): for "
+                  "every index, target and free-disk figures a successful size configuration selects spaces whose total never exceeds the "
+                  "request and is short of it by less than the smallest plot size (24 bits = 96 MiB), every indexed space of a usable bit "
+                  "length left out would not have fitted and is larger than anything created, new spaces are created only in the "
+                  "keeper's first directory resp. in the requested directory and fit its free bytes; per directory (directories distinct) the "
+                  "same bounds hold for each directory's size and only spaces of requested directories are selected; by bit-length "
+                  "counts the counts are exact; requests below the minimum, of 2^63 bytes or more, whose MiB count overflows, or beyond "
+                  "free disk are rejected and a rejected request creates nothing (by path: every directory is checked before anything is "
+                  "created - after the fix of F21); everything selected is a plot file of its directory and is indexed again by a keeper "
+                  "restarted on those directories. Correspondence: real keeper (real massdb.v1 files, scripted wallet, free-disk figures "
+                  "through hook H6) and real API handlers vs the Lean driver on generated scenarios with reconfiguration and restarts.",
+    "level_note": "Trusted: Lean kernel; gopsutil disk.Usage (a parameter, fed through hook H6); the priority queue's order = ascending "
+                  "ordinal (one key counter in the harness); files are sparse until plotted, so 'free disk' does not shrink in the harness. "
+                  "Readings stated in the evidence: size-based configuration considers the usable bit lengths 24/26/28 only (a space of "
+                  "another bit length is configured by counts only); a by-path request naming one directory twice is not 'one size per "
+                  "directory' (per-directory theorems assume distinct directories; the model still follows the code there). 'Same selection "
+                  "for the same request after a restart' is checked by the harness oracle, the theorem covers re-indexing of the selection.",
+    "trusted_base": ["github.com/shirou/gopsutil disk.Usage: free bytes per directory are parameters of the model (hook H6 feeds the harness's figures; the comparison stays the code's)",
+                     "gopkg.in/karalabe/cookiejar.v2 prque with priority -ordinal+diff: indexed spaces of one bit length are visited by ascending ordinal",
+                     "massdb.v1 CreateDB/OpenDB and the start-up scan (C11) for 'a created space is a file pair that is indexed again'"],
+    "assumptions": ["hand-written model Model/Config.lean; agreement with capacity.go / api/spaces.v1.go / api/util.go / mining/spacekeeper_v1.go checked by the correspondence stream on every run",
+                    "constants regenerated from the source: usableBitLength, MinValidDefaultBitLength, MiB, the body of DefaultPlotSize (theorem C15_facts)",
+                    "int64 overflow of the running total is not modelled (needs indexed spaces of 2^63 bytes); keeper not running, wallet unlocked, no concurrent configuration (the code's guards, not exercised)",
+                    "passphrase/payout-address validation of the API handlers is fixed to valid inputs"],
+}
